@@ -585,6 +585,10 @@ pub enum Cmd11 {
     /// DOC_Cmd11_CmdTwo what the command does
     CmdTwo(Sub11Two),
     CmdThree,
+    // tags with digits: a digit continues the word it follows (`ipv4`, `http2-get`)
+    Ipv4,
+    /// DOC_Cmd11_Http2Get what the command does
+    Http2Get,
 }
 #[derive(ArgParse, Debug)]
 #[cli(help_path = "h-cli, cmd-two")]
@@ -622,11 +626,19 @@ impl Shape for S11SubRequired {
             sub: Some(Sub {
                 optional: false,
                 field_doc: vec!["DOC_S11SubRequired_sc"],
-                var_docs: vec![vec!["DOC_Cmd11_CmdOne_L1", "DOC_Cmd11_CmdOne_L2"], vec!["DOC_Cmd11_CmdTwo"], vec![]],
+                var_docs: vec![
+                    vec!["DOC_Cmd11_CmdOne_L1", "DOC_Cmd11_CmdOne_L2"],
+                    vec!["DOC_Cmd11_CmdTwo"],
+                    vec![],
+                    vec![],
+                    vec!["DOC_Cmd11_Http2Get"],
+                ],
                 vars: vec![
                     ("cmd-one", None),
                     ("cmd-two", Some(Sub11Two::grammar())),
                     ("cmd-three", None),
+                    ("ipv4", None),
+                    ("http2-get", None),
                 ],
             }),
             help: help::<Self>(),
@@ -640,6 +652,8 @@ impl Shape for S11SubRequired {
                 Cmd11::CmdOne => (0, None),
                 Cmd11::CmdTwo(t) => (1, Some(Box::new(t.to_val()))),
                 Cmd11::CmdThree => (2, None),
+                Cmd11::Ipv4 => (3, None),
+                Cmd11::Http2Get => (4, None),
             }),
         }
     }
